@@ -224,7 +224,12 @@ class Ctx:
             impl[hs] = lib.run_impl(lines, hashseed=hs, per_proc=per_proc)
             for k, (a, b) in enumerate(zip(m, impl[hs])):
                 if a != b:
-                    mism.append((k, hs))
+                    ok, ncmp, trunc = lib.compare_ops(a, b)
+                    if trunc:
+                        self.cov.setdefault("float_inexact_truncated", 0)
+                        self.cov["float_inexact_truncated"] += 1
+                    if not ok:
+                        mism.append((k, hs))
         c = self.cov["components"].setdefault(comp, {"scenarios": 0, "mismatches": 0, "hashseeds": list(hashseeds)})
         c["scenarios"] += len(lines)
         c["mismatches"] += len(mism)
